@@ -140,24 +140,7 @@ def worker(w, W, payload):
                 agg.fail(ident, f"[{mode}/{variant}] {bad[1]}", {"mode": mode, "variant": variant, "program": prog.to_json(mode, dyn),
                                                                   "expected": list(exp), "spec": prog_spec(prog)})
         if small:
-            pv = python_variant(prog)
-            if pv is not None:
-                cname, slots = pv
-                classes = h.install(prog)
-                for how in ("str", "func"):
-                    sl = {k: (mark_safe(v) if how == "str" else (lambda ctx, data, ref, _v=v: mark_safe(_v))) for k, v in slots.items()}
-                    try:
-                        out = ("ok", classes[cname].render(context=dict(PAGE_CTX), slots=sl, render_dependencies=False))
-                    except Exception as ex:  # noqa
-                        out = ("err", type(ex).__name__, str(ex)[:200])
-                    boot.clear_render_registries()
-                    agg.transitions += 1
-                    agg.validated += 1
-                    bad = compare(mode, "python-" + how, prog, exp, out)
-                    if bad:
-                        ident = f"{mode}:python-{how}:{bad[0]}:{core_of(prog)}"
-                        agg.fail(ident, f"[{mode}/Component.render slots as {how}] {bad[1]}",
-                                 {"mode": mode, "variant": "python-" + how, "program": prog.to_json(mode), "expected": list(exp), "spec": prog_spec(prog)})
+            python_variants(prog, mode, exp, h, agg)
         if agg.states <= 2 and w == 0:
             agg.sample({"mode": mode, "page": prog.page_source(), "components": {n: c.source() for n, c in prog.comps.items()},
                         "expected": list(exp)})
@@ -259,10 +242,37 @@ def family_worker(w, W, payload):
             if bad:
                 agg.fail(f"{mode}:{variant}:family:{bad[0]}:{core_of(prog)}", f"[{mode}/{variant}] {bad[1]}",
                          {"mode": mode, "variant": variant, "program": prog.to_json(mode, dyn), "expected": list(exp), "spec": prog_spec(prog)})
+        python_variants(prog, mode, exp, h, agg, "family:")
         if agg.states == 4 and w == 7:
             agg.sample({"mode": mode, "page": prog.page_source(), "components": {n: c.source() for n, c in prog.comps.items()}, "expected": list(exp)})
     h.uninstall()
     return agg
+
+
+def python_variants(prog, mode, exp, h, agg, tag=""):
+    """Component.render(slots=...) for pages that are one component tag with closed text fills"""
+    from django.utils.safestring import mark_safe
+
+    pv = python_variant(prog)
+    if pv is None:
+        return
+    cname, slots = pv
+    classes = h.install(prog)
+    for how in ("str", "func"):
+        sl = {k: (mark_safe(v) if how == "str" else (lambda ctx, data, ref, _v=v: mark_safe(_v))) for k, v in slots.items()}
+        try:
+            out = ("ok", classes[cname].render(context=dict(PAGE_CTX), slots=sl, render_dependencies=False))
+        except RecursionError:
+            out = ("err", "RecursionError", "")
+        except Exception as ex:  # noqa
+            out = ("err", type(ex).__name__, str(ex)[:200])
+        boot.clear_render_registries()
+        agg.transitions += 1
+        agg.validated += 1
+        bad = compare(mode, "python-" + how, prog, exp, out)
+        if bad:
+            agg.fail(f"{mode}:python-{how}:{tag}{bad[0]}:{core_of(prog)}", f"[{mode}/Component.render slots as {how}] {bad[1]}",
+                     {"mode": mode, "variant": "python-" + how, "program": prog.to_json(mode), "expected": list(exp), "spec": prog_spec(prog)})
 
 
 def run(ctx):
@@ -312,6 +322,18 @@ def replay(ctx, case):
     dyn = variant == "dynamic"
     h.install(prog, dynamic=dyn)
     exp = model_outcome(prog, mode)
+    if variant.startswith("python"):
+        agg = par.Agg()
+        python_variants(prog, mode, exp, h, agg)
+        boot.clear_render_registries()
+        h.uninstall()
+        print("page:      ", prog.page_source())
+        for n, c in prog.comps.items():
+            print(f"comp {n}:    ", c.source())
+        print("expected:  ", exp)
+        for f in agg.failures:
+            print("python variant:", f[1])
+        return not agg.failures
     obs = h.render_page(prog, dynamic=dyn)
     boot.clear_render_registries()
     h.uninstall()
